@@ -215,6 +215,7 @@ def run_rust_case(item):
         hooks = {"verif_in": lambda m, i: ins.get(i, 0), "verif_out": lambda m, i, v: out.__setitem__(i, v),
                  "verif_load": lambda m, a: 0, "verif_store": lambda m, a, v: None}
         m = interp.Machine(img, hooks)
+        m.array_mode = True
         m.run(img.mod.functions["harness_regfile"], [])
         # the Python register file driven by the same sequence
         regs = Registers()
